@@ -1,6 +1,13 @@
 import J5V.Schema.Reader
 /-!
-# Lemmas for C18: the reader never panics on a linked descriptor set whose enum names are free
+# Lemmas for C18: the reader never panics on a linked descriptor set
+
+Invariants of the package set while the reader runs (`RegOK`):
+* every entry is the one found under its own name (names are registered once);
+* an entry registered for an enum descriptor (`src`) holds an enum schema.
+Frames own the names they registered (`Owns`): the entry under the message's name, and under the
+name of each exposed oneof, was registered for exactly that descriptor — `RefSchema.claim`
+(af1da62) turns every other case into an error before anything is built.
 -/
 namespace J5V.Schema.Reader
 open J5V.Go J5V.Schema
@@ -9,13 +16,8 @@ def enumRoot : Option RRoot → Bool
   | some (.enum _ _ _ _) => true
   | _ => false
 
-/-- (p, k) is the schema name of an enum of the set -/
-def isEnumKey (ds : DescSet) (p k : String) : Bool := ds.enums.any fun en => en.pkg == p && en.split == k
-
-/-- no message and no oneof shares its schema name with an enum (the part of "no name collision"
-that the reader's unchecked `ref.To.(*EnumSchema)` depends on) -/
-def enumNamesFree (ds : DescSet) : Bool :=
-  ds.msgs.all fun m => !isEnumKey ds m.pkg m.split && m.oneofs.all fun o => !isEnumKey ds m.pkg o.split
+/-- `src` is the full name of an enum of the set -/
+def srcIsEnum (ds : DescSet) (src : String) : Bool := ds.enums.any fun en => en.full == src
 
 /-- what `protodesc` guarantees about a field's type: a message / enum kind comes with its
 descriptor, the descriptor is in the set (for messages: unless the reader never looks it up), an
@@ -43,7 +45,9 @@ def fieldLinked (ds : DescSet) (f : FieldD) : Bool :=
     | none => false
   | _ => targetLinked ds f.kind f.target
 
-/-- the set is linked (trusted: protodesc / protoregistry) -/
+/-- the set is linked (trusted: protodesc / protoregistry): field types resolve, enums are not
+empty, the listed top-level names exist, and full names are unique across kinds (no message and no
+oneof has the full name of an enum) -/
 def linked (ds : DescSet) : Bool :=
   (ds.msgs.all fun m => m.fields.all (fieldLinked ds)) &&
   (ds.topMsgs.all fun full => (ds.msg? full).isSome) &&
@@ -51,16 +55,10 @@ def linked (ds : DescSet) : Bool :=
   (ds.topEnums.all fun full =>
     match ds.enum? full with
     | some en => !en.values.isEmpty
-    | none => false)
-
-/-- the entry registered under an enum's schema name holds an enum schema -/
-def RegOK (ds : DescSet) (reg : Reg) : Prop :=
-  ∀ p k, isEnumKey ds p k = true → ∀ e, reg.find p k = some e → enumRoot e.to = true
-
-def opSafe (ds : DescSet) : RegOp → Bool
-  | .add p k _ => !isEnumKey ds p k
-  | .set p k r => !isEnumKey ds p k || enumRoot (some r)
-  | .link p k _ r => !isEnumKey ds p k || enumRoot (some r)
+    | none => false) &&
+  (ds.msgs.all fun m => !srcIsEnum ds m.full &&
+    m.oneofs.all fun o => !srcIsEnum ds (m.full ++ "." ++ o.name)) &&
+  (ds.msgs.all fun m => (ds.msg? m.full).isSome)
 
 theorem Reg.find_pred (reg : Reg) (p k : String) (e : REntry) (h : reg.find p k = some e) :
     e.pkg = p ∧ e.key = k := by
@@ -94,76 +92,182 @@ theorem Reg.find_map_set (reg : Reg) (p0 k0 : String) (root : RRoot) (p k : Stri
     split <;> rfl
   rw [hcomp]
 
+
+/-! ## the registry invariant -/
+
+/-- every entry is the one found under its own name -/
+def Found (reg : Reg) : Prop := ∀ e ∈ reg, reg.find e.pkg e.key = some e
+
+def RegOK (ds : DescSet) (reg : Reg) : Prop :=
+  Found reg ∧ ∀ e ∈ reg, srcIsEnum ds e.src = true → enumRoot e.to = true
+
+/-- an update keeps the invariant -/
+def opSafe (ds : DescSet) (reg : Reg) : RegOp → Prop
+  | .add _ _ src => srcIsEnum ds src = false
+  | .link _ _ src r => srcIsEnum ds src = false ∨ enumRoot (some r) = true
+  | .set p k r => enumRoot (some r) = true ∨ ∀ e, reg.find p k = some e → srcIsEnum ds e.src = false
+
+def opsSafe (ds : DescSet) : Reg → List RegOp → Prop
+  | _, [] => True
+  | reg, op :: ops => opSafe ds reg op ∧ opsSafe ds (reg.apply op) ops
+
+theorem Found.append {reg : Reg} (h : Found reg) (x : REntry) (hx : reg.find x.pkg x.key = none) :
+    Found (reg ++ [x]) := by
+  intro e he
+  rw [Reg.find_append]
+  rcases List.mem_append.mp he with he' | he'
+  · rw [h e he']
+  · simp only [List.mem_singleton] at he'
+    subst he'
+    simp [hx]
+
+theorem Found.set {reg : Reg} (h : Found reg) (p k : String) (r : RRoot) :
+    Found (reg.map fun e => if e.pkg == p && e.key == k then { e with to := some r } else e) := by
+  intro e he
+  obtain ⟨e0, he0, rfl⟩ := List.mem_map.mp he
+  have hk : (if e0.pkg == p && e0.key == k then { e0 with to := some r } else e0).pkg = e0.pkg ∧
+      (if e0.pkg == p && e0.key == k then { e0 with to := some r } else e0).key = e0.key := by
+    split <;> exact ⟨rfl, rfl⟩
+  rw [hk.1, hk.2, Reg.find_map_set, h e0 he0]
+  rfl
+
 theorem RegOK.apply {ds : DescSet} {reg : Reg} (h : RegOK ds reg) (op : RegOp)
-    (hs : opSafe ds op = true) : RegOK ds (reg.apply op) := by
-  intro p k hk e he
+    (hs : opSafe ds reg op) : RegOK ds (reg.apply op) := by
+  obtain ⟨hfound, henum⟩ := h
   cases op with
-  | add p0 k0 src =>
-    simp only [Reg.apply] at he
-    split at he
-    · exact h p k hk e he
-    · rw [Reg.find_append] at he
-      cases hf : reg.find p k with
-      | some e' => rw [hf] at he; cases he; exact h p k hk _ hf
-      | none =>
-        rw [hf] at he
-        simp only at he
-        split at he
-        · rename_i hm
-          simp only [Bool.and_eq_true, beq_iff_eq] at hm
-          obtain ⟨rfl, rfl⟩ := hm
-          simp [opSafe, hk] at hs
-        · cases he
-  | set p0 k0 r =>
-    simp only [Reg.apply] at he
-    rw [Reg.find_map_set] at he
-    cases hf : reg.find p k with
-    | none => rw [hf] at he; cases he
-    | some e' =>
-      rw [hf] at he
-      simp only [Option.map_some, Option.some.injEq] at he
-      obtain ⟨hp, hkk⟩ := Reg.find_pred reg p k e' hf
-      by_cases hm : (e'.pkg == p0 && e'.key == k0) = true
-      · simp only [hm, ↓reduceIte] at he
-        subst he
-        simp only [Bool.and_eq_true, beq_iff_eq] at hm
-        obtain ⟨h1, h2⟩ := hm
-        rw [hp] at h1; rw [hkk] at h2
-        subst h1; subst h2
-        simpa [opSafe, hk] using hs
-      · simp only [hm, Bool.false_eq_true, ↓reduceIte] at he
-        subst he
-        exact h p k hk _ hf
-  | link p0 k0 src r =>
-    simp only [Reg.apply] at he
-    split at he
-    · exact h p k hk e he
-    · rw [Reg.find_append] at he
-      cases hf : reg.find p k with
-      | some e' => rw [hf] at he; cases he; exact h p k hk _ hf
-      | none =>
-        rw [hf] at he
-        simp only at he
-        split at he
-        · rename_i hm
-          simp only [Bool.and_eq_true, beq_iff_eq] at hm
-          obtain ⟨rfl, rfl⟩ := hm
-          cases he
-          simpa [opSafe, hk] using hs
-        · cases he
+  | add p k src =>
+    simp only [Reg.apply]
+    split
+    · exact ⟨hfound, henum⟩
+    · rename_i hhas
+      have hnone : reg.find p k = none := by
+        cases hf : reg.find p k with
+        | none => rfl
+        | some x => simp [Reg.has, hf] at hhas
+      refine ⟨hfound.append ⟨p, k, none, src⟩ hnone, ?_⟩
+      intro e he hse
+      rcases List.mem_append.mp he with he' | he'
+      · exact henum e he' hse
+      · simp only [List.mem_singleton] at he'
+        subst he'
+        simp only [opSafe] at hs
+        simp [hs] at hse
+  | set p k r =>
+    simp only [Reg.apply]
+    refine ⟨hfound.set p k r, ?_⟩
+    intro e he hse
+    obtain ⟨e0, he0, rfl⟩ := List.mem_map.mp he
+    by_cases hm : (e0.pkg == p && e0.key == k) = true
+    · simp only [hm, ↓reduceIte] at hse ⊢
+      simp only [opSafe] at hs
+      rcases hs with hs | hs
+      · exact hs
+      · simp only [Bool.and_eq_true, beq_iff_eq] at hm
+        have hf := hfound e0 he0
+        rw [hm.1, hm.2] at hf
+        have := hs e0 hf
+        simp [this] at hse
+    · simp only [hm, Bool.false_eq_true, ↓reduceIte] at hse ⊢
+      exact henum e0 he0 hse
+  | link p k src r =>
+    simp only [Reg.apply]
+    split
+    · exact ⟨hfound, henum⟩
+    · rename_i hhas
+      have hnone : reg.find p k = none := by
+        cases hf : reg.find p k with
+        | none => rfl
+        | some x => simp [Reg.has, hf] at hhas
+      refine ⟨hfound.append ⟨p, k, some r, src⟩ hnone, ?_⟩
+      intro e he hse
+      rcases List.mem_append.mp he with he' | he'
+      · exact henum e he' hse
+      · simp only [List.mem_singleton] at he'
+        subst he'
+        simp only [opSafe] at hs
+        rcases hs with hs | hs
+        · simp [hs] at hse
+        · exact hs
 
 theorem RegOK.applyAll {ds : DescSet} {reg : Reg} (h : RegOK ds reg) (ops : List RegOp)
-    (hs : ops.all (opSafe ds) = true) : RegOK ds (reg.applyAll ops) := by
+    (hs : opsSafe ds reg ops) : RegOK ds (reg.applyAll ops) := by
   induction ops generalizing reg with
   | nil => exact h
   | cons op ops ih =>
-    simp only [List.all_cons, Bool.and_eq_true] at hs
     simp only [Reg.applyAll, List.foldl_cons]
     exact ih (h.apply op hs.1) hs.2
 
-theorem RegOK.nil (ds : DescSet) : RegOK ds [] := by
-  intro p k _ e he
-  simp [Reg.find] at he
+theorem RegOK.nil (ds : DescSet) : RegOK ds [] :=
+  ⟨(by intro e he; cases he), (by intro e he; cases he)⟩
+
+/-- updates whose safety does not depend on the registry -/
+def opFree (ds : DescSet) : RegOp → Prop
+  | .add _ _ src => srcIsEnum ds src = false
+  | .link _ _ src r => srcIsEnum ds src = false ∨ enumRoot (some r) = true
+  | .set _ _ r => enumRoot (some r) = true
+
+theorem opsSafe_of_free (ds : DescSet) (reg : Reg) (ops : List RegOp)
+    (h : ∀ op ∈ ops, opFree ds op) : opsSafe ds reg ops := by
+  induction ops generalizing reg with
+  | nil => trivial
+  | cons op ops ih =>
+    refine ⟨?_, ih _ (fun o ho => h o (List.mem_cons_of_mem _ ho))⟩
+    have := h op (List.mem_cons_self ..)
+    cases op with
+    | add p k src => exact this
+    | link p k src r => exact this
+    | set p k r => exact Or.inl this
+
+/-! ## owning a name -/
+
+/-- the name (p, k) is registered, and for the descriptor `src` -/
+def Owns (reg : Reg) (p k src : String) : Prop := ∃ e, reg.find p k = some e ∧ e.src = src
+
+theorem Owns.apply {reg : Reg} {p k src : String} (h : Owns reg p k src) (op : RegOp) :
+    Owns (reg.apply op) p k src := by
+  obtain ⟨e, hf, hs⟩ := h
+  cases op with
+  | add p0 k0 s0 =>
+    simp only [Reg.apply]
+    split
+    · exact ⟨e, hf, hs⟩
+    · exact ⟨e, by rw [Reg.find_append, hf], hs⟩
+  | set p0 k0 r =>
+    simp only [Reg.apply]
+    refine ⟨_, by rw [Reg.find_map_set, hf]; rfl, ?_⟩
+    simp only
+    split <;> exact hs
+  | link p0 k0 s0 r =>
+    simp only [Reg.apply]
+    split
+    · exact ⟨e, hf, hs⟩
+    · exact ⟨e, by rw [Reg.find_append, hf], hs⟩
+
+theorem Owns.applyAll {reg : Reg} {p k src : String} (h : Owns reg p k src) (ops : List RegOp) :
+    Owns (reg.applyAll ops) p k src := by
+  induction ops generalizing reg with
+  | nil => exact h
+  | cons op ops ih => simp only [Reg.applyAll, List.foldl_cons]; exact ih (h.apply op)
+
+theorem Owns.add_new (reg : Reg) (p k src : String) (h : reg.find p k = none) :
+    Owns (reg.apply (.add p k src)) p k src := by
+  simp only [Reg.apply, Reg.has, h, Option.isSome_none, Bool.false_eq_true, ↓reduceIte]
+  exact ⟨⟨p, k, none, src⟩, by rw [Reg.find_append, h]; simp, rfl⟩
+
+theorem Owns.link_new (reg : Reg) (p k src : String) (r : RRoot) (h : reg.find p k = none) :
+    Owns (reg.apply (.link p k src r)) p k src := by
+  simp only [Reg.apply, Reg.has, h, Option.isSome_none, Bool.false_eq_true, ↓reduceIte]
+  exact ⟨⟨p, k, some r, src⟩, by rw [Reg.find_append, h]; simp, rfl⟩
+
+/-- a `set` under a name owned for a non-enum descriptor is safe, whatever was applied before -/
+theorem opSafe_set_owned (ds : DescSet) (reg : Reg) (p k src : String) (r : RRoot)
+    (h : Owns reg p k src) (hs : srcIsEnum ds src = false) : opSafe ds reg (.set p k r) := by
+  obtain ⟨e, hf, he⟩ := h
+  refine Or.inr ?_
+  intro e' hf'
+  rw [hf] at hf'
+  cases hf'
+  rw [he]; exact hs
 
 /-! ## the local builders never panic (on linked input, with a sound registry) -/
 
@@ -269,33 +373,53 @@ theorem msg?_mem (ds : DescSet) (full : String) (m : Msg) (h : ds.msg? full = so
   unfold DescSet.msg? at h
   exact List.mem_of_find?_eq_some h
 
-theorem isEnumKey_of_mem (ds : DescSet) (en : EnumD) (h : en ∈ ds.enums) :
-    isEnumKey ds en.pkg en.split = true := by
-  unfold isEnumKey
-  simp only [List.any_eq_true, Bool.and_eq_true, beq_iff_eq]
-  exact ⟨en, h, rfl, rfl⟩
+theorem srcIsEnum_of_mem (ds : DescSet) (en : EnumD) (h : en ∈ ds.enums) :
+    srcIsEnum ds en.full = true := by
+  unfold srcIsEnum
+  simp only [List.any_eq_true, beq_iff_eq]
+  exact ⟨en, h, rfl⟩
+
+theorem linked_names (ds : DescSet) (hl : linked ds = true) (m : Msg) (hm : m ∈ ds.msgs) :
+    srcIsEnum ds m.full = false ∧ ∀ o ∈ m.oneofs, srcIsEnum ds (m.full ++ "." ++ o.name) = false := by
+  unfold linked at hl
+  simp only [Bool.and_eq_true, List.all_eq_true] at hl
+  have := hl.1.2 m hm
+  simp only [Bool.not_eq_eq_eq_not, Bool.not_true] at this
+  exact this
+
+theorem mem_of_find (reg : Reg) (p k : String) (e : REntry) (h : reg.find p k = some e) : e ∈ reg := by
+  unfold Reg.find at h
+  exact List.mem_of_find?_eq_some h
 
 /-- after `enumTarget` the reference's target is an enum schema (given a sound registry) -/
 theorem enumTarget_spec (ds : DescSet) (reg : Reg) (full : String) (en : EnumD)
     (hreg : RegOK ds reg) (hen : en ∈ ds.enums) (hv : en.values.isEmpty = false) :
     (∀ w, enumTarget reg full en ≠ .panic w) ∧
     ∀ to ops, enumTarget reg full en = .ok (to, ops) →
-      enumRoot to = true ∧ ops.all (opSafe ds) = true := by
+      enumRoot to = true ∧ ∀ op ∈ ops, opFree ds op := by
   unfold enumTarget
   split
   · rename_i ent hf
-    refine ⟨by simp, ?_⟩
-    intro to ops h
-    cases h
-    exact ⟨hreg _ _ (isEnumKey_of_mem ds en hen) ent hf, rfl⟩
+    constructor
+    · intro w; split <;> simp
+    · intro to ops h
+      split at h
+      · cases h
+      · rename_i hsrc
+        cases h
+        have hsrc' : ent.src = en.full := by simpa using hsrc
+        refine ⟨hreg.2 ent (mem_of_find reg _ _ ent hf) ?_, by intro op hop; cases hop⟩
+        rw [hsrc']; exact srcIsEnum_of_mem ds en hen
   · refine ⟨map_noPanic (buildEnum_noPanic en hv), ?_⟩
     intro to ops h
     obtain ⟨r, hr, hx⟩ := map_eq_ok h
     cases hx
     have := buildEnum_enumRoot en r hr
     refine ⟨this, ?_⟩
-    simp only [List.all_cons, List.all_nil, Bool.and_true, opSafe]
-    simp [this]
+    intro op hop
+    simp only [List.mem_singleton] at hop
+    subst hop
+    exact Or.inr this
 
 theorem enumCheck_noPanic (to : Option RRoot) (vt : VType) (h : enumRoot to = true) (w : String) :
     enumCheck to vt ≠ .panic w := by
@@ -315,7 +439,7 @@ theorem buildEnumField_spec (ds : DescSet) (reg : Reg) (full : String) (e : Ext)
     (hreg : RegOK ds reg)
     (hl : (match ds.enum? full with | some en => !en.values.isEmpty | none => false) = true) :
     (∀ w, buildEnumField ds reg full e ≠ .panic w) ∧
-    ∀ f ops, buildEnumField ds reg full e = .ok (f, ops) → ops.all (opSafe ds) = true := by
+    ∀ f ops, buildEnumField ds reg full e = .ok (f, ops) → ∀ op ∈ ops, opFree ds op := by
   unfold buildEnumField
   cases hen : ds.enum? full with
   | none => simp [hen] at hl
@@ -337,10 +461,10 @@ theorem buildEnumField_spec (ds : DescSet) (reg : Reg) (full : String) (e : Ext)
       exact (hspec to ops' ha).2
 
 theorem referenceMessage_spec (ds : DescSet) (reg : Reg) (full : String) (fl : Bool)
-    (hfree : enumNamesFree ds = true) (hl : (!needsLookup full || (ds.msg? full).isSome) = true)
+    (hlk : linked ds = true) (hl : (!needsLookup full || (ds.msg? full).isSome) = true)
     (hw : isWkt full = false) :
     (∀ w, referenceMessage ds reg full fl ≠ .panic w) ∧
-    ∀ b, referenceMessage ds reg full fl = .ok b → b.ops.all (opSafe ds) = true := by
+    ∀ b, referenceMessage ds reg full fl = .ok b → ∀ op ∈ b.ops, opFree ds op := by
   unfold referenceMessage
   split
   · exact ⟨by simp, by intro b h; cases h⟩
@@ -355,23 +479,27 @@ theorem referenceMessage_spec (ds : DescSet) (reg : Reg) (full : String) (fl : B
     | some m =>
       simp only
       have hmem := msg?_mem ds full m hm
-      have hk : isEnumKey ds m.pkg m.split = false := by
-        unfold enumNamesFree at hfree
-        have := List.all_eq_true.mp hfree m hmem
-        simp only [Bool.and_eq_true, Bool.not_eq_eq_eq_not, Bool.not_true] at this
-        exact this.1
+      have hk := (linked_names ds hlk m hmem).1
       constructor
-      · intro w; split <;> simp
+      · intro w
+        split
+        · split <;> simp
+        · simp
       · intro b h
         split at h
-        · cases h; rfl
+        · split at h
+          · cases h
+          · cases h; intro op hop; cases hop
         · cases h
-          simp [opSafe, hk]
+          intro op hop
+          simp only [List.mem_singleton] at hop
+          subst hop
+          exact hk
 
 theorem buildMessageField_spec (ds : DescSet) (reg : Reg) (full : String) (e : Ext)
-    (hfree : enumNamesFree ds = true) (hl : (!needsLookup full || (ds.msg? full).isSome) = true) :
+    (hlk : linked ds = true) (hl : (!needsLookup full || (ds.msg? full).isSome) = true) :
     (∀ w, buildMessageField ds reg full e ≠ .panic w) ∧
-    ∀ b, buildMessageField ds reg full e = .ok b → b.ops.all (opSafe ds) = true := by
+    ∀ b, buildMessageField ds reg full e = .ok b → ∀ op ∈ b.ops, opFree ds op := by
   unfold buildMessageField
   simp only
   constructor
@@ -379,18 +507,18 @@ theorem buildMessageField_spec (ds : DescSet) (reg : Reg) (full : String) (e : E
     intro a ha
     cases a with
     | some f => simp
-    | none => exact (referenceMessage_spec ds reg full _ hfree hl (wktSchema_none full e ha)).1
+    | none => exact (referenceMessage_spec ds reg full _ hlk hl (wktSchema_none full e ha)).1
   · intro b h
     obtain ⟨a, ha, h2⟩ := bind_eq_ok h
     cases a with
-    | some f => cases h2; rfl
-    | none => exact (referenceMessage_spec ds reg full _ hfree hl (wktSchema_none full e ha)).2 b h2
+    | some f => cases h2; intro op hop; cases hop
+    | none => exact (referenceMessage_spec ds reg full _ hlk hl (wktSchema_none full e ha)).2 b h2
 
 theorem buildSchema_spec (ds : DescSet) (reg : Reg) (kind : PKind) (t : Target) (e : Ext)
-    (key : Option KeySum) (hreg : RegOK ds reg) (hfree : enumNamesFree ds = true)
+    (key : Option KeySum) (hreg : RegOK ds reg) (hlk : linked ds = true)
     (hl : targetLinked ds kind t = true) :
     (∀ w, buildSchema ds reg kind t e key ≠ .panic w) ∧
-    ∀ b, buildSchema ds reg kind t e key = .ok b → b.ops.all (opSafe ds) = true := by
+    ∀ b, buildSchema ds reg kind t e key = .ok b → ∀ op ∈ b.ops, opFree ds op := by
   unfold buildSchema
   unfold targetLinked at hl
   split
@@ -399,7 +527,7 @@ theorem buildSchema_spec (ds : DescSet) (reg : Reg) (kind : PKind) (t : Target) 
     split
     · rename_i full p k
       simp only at hl
-      exact buildMessageField_spec ds reg full e hfree hl
+      exact buildMessageField_spec ds reg full e hlk hl
     · rename_i hne
       split at hl
       · rename_i full p k; exact absurd rfl (hne full p k)
@@ -424,7 +552,8 @@ theorem buildSchema_spec (ds : DescSet) (reg : Reg) (kind : PKind) (t : Target) 
     · exact map_noPanic (buildScalar_noPanic kind e key)
     · intro b h
       obtain ⟨⟨tag, fmt⟩, _, hx⟩ := map_eq_ok h
-      cases hx; rfl
+      cases hx
+      intro op hop; cases hop
 
 theorem propertyPlan_spec (ds : DescSet) (f : FieldD) (hl : fieldLinked ds f = true) :
     (∀ w, propertyPlan f ≠ .panic w) ∧
@@ -459,47 +588,91 @@ theorem propertyPlan_spec (ds : DescSet) (f : FieldD) (hl : fieldLinked ds f = t
         exact hl
 
 theorem buildProperty_spec (ds : DescSet) (reg : Reg) (f : FieldD) (hreg : RegOK ds reg)
-    (hfree : enumNamesFree ds = true) (hl : fieldLinked ds f = true) :
+    (hlk : linked ds = true) (hl : fieldLinked ds f = true) :
     (∀ w, buildProperty ds reg f ≠ .panic w) ∧
-    ∀ prop b, buildProperty ds reg f = .ok (prop, b) → b.ops.all (opSafe ds) = true := by
+    ∀ prop b, buildProperty ds reg f = .ok (prop, b) → ∀ op ∈ b.ops, opFree ds op := by
   unfold buildProperty
   obtain ⟨hnp, hplan⟩ := propertyPlan_spec ds f hl
   constructor
   · apply bind_noPanic hnp
     intro a ha
     obtain ⟨kind, t, e, key, mk⟩ := a
-    exact map_noPanic (buildSchema_spec ds reg kind t e key hreg hfree (hplan _ _ _ _ _ ha)).1
+    exact map_noPanic (buildSchema_spec ds reg kind t e key hreg hlk (hplan _ _ _ _ _ ha)).1
   · intro prop b h
     obtain ⟨⟨kind, t, e, key, mk⟩, ha, h2⟩ := bind_eq_ok h
     obtain ⟨b', hb', hx⟩ := map_eq_ok h2
     cases hx
-    exact (buildSchema_spec ds reg kind t e key hreg hfree (hplan _ _ _ _ _ ha)).2 b hb'
+    exact (buildSchema_spec ds reg kind t e key hreg hlk (hplan _ _ _ _ _ ha)).2 b hb'
+
+/-- the message pushed by a field owns its name after the field's updates -/
+theorem buildProperty_push_owns (ds : DescSet) (reg : Reg) (f : FieldD) (prop : RProp) (b : Built)
+    (m : Msg) (h : buildProperty ds reg f = .ok (prop, b)) (hp : b.push = some m) :
+    Owns (reg.applyAll b.ops) m.pkg m.split m.full := by
+  unfold buildProperty at h
+  obtain ⟨⟨kind, t, e, key, mk⟩, _, h2⟩ := bind_eq_ok h
+  obtain ⟨b', hb, hx⟩ := map_eq_ok h2
+  cases hx
+  unfold buildSchema at hb
+  split at hb
+  · split at hb
+    · unfold buildMessageField at hb
+      simp only at hb
+      obtain ⟨w, _, hw⟩ := bind_eq_ok hb
+      split at hw
+      · cases hw; cases hp
+      · unfold referenceMessage at hw
+        split at hw
+        · cases hw
+        · split at hw
+          · cases hw
+          · simp only at hw
+            split at hw
+            · split at hw
+              · cases hw
+              · cases hw; cases hp
+            · rename_i hfind
+              cases hw
+              simp only [Option.some.injEq] at hp
+              subst hp
+              simp only [Reg.applyAll, List.foldl_cons, List.foldl_nil]
+              exact Owns.add_new reg _ _ _ hfind
+    · cases hb
+  · split at hb
+    · obtain ⟨x, _, hx⟩ := map_eq_ok hb
+      subst hx; cases hp
+    · cases hb
+  · obtain ⟨x, _, hx⟩ := map_eq_ok hb
+    subst hx; cases hp
 
 /-! ## frames and the machine -/
 
 def FrameOK (ds : DescSet) (fr : Frame) : Prop :=
   fr.msg ∈ ds.msgs ∧ (∀ f ∈ fr.rest, f ∈ fr.msg.fields) ∧ (∀ x ∈ fr.expose, x.2.1 ∈ fr.msg.oneofs)
 
-def Good (ds : DescSet) (st : St) : Prop := RegOK ds st.reg ∧ ∀ fr ∈ st.stack, FrameOK ds fr
+/-- the frame owns the names it will link at the end -/
+def FrameOwns (reg : Reg) (fr : Frame) : Prop :=
+  Owns reg fr.msg.pkg fr.msg.split fr.msg.full ∧
+  ∀ x ∈ fr.expose, Owns reg fr.msg.pkg x.2.1.split (fr.msg.full ++ "." ++ x.2.1.name)
 
-theorem msgKey_free (ds : DescSet) (hfree : enumNamesFree ds = true) (m : Msg) (hm : m ∈ ds.msgs) :
-    isEnumKey ds m.pkg m.split = false ∧ ∀ o ∈ m.oneofs, isEnumKey ds m.pkg o.split = false := by
-  unfold enumNamesFree at hfree
-  have := List.all_eq_true.mp hfree m hm
-  simp only [Bool.and_eq_true, Bool.not_eq_eq_eq_not, Bool.not_true, List.all_eq_true] at this
-  exact this
+theorem FrameOwns.applyAll {reg : Reg} {fr : Frame} (h : FrameOwns reg fr) (ops : List RegOp) :
+    FrameOwns (reg.applyAll ops) fr :=
+  ⟨h.1.applyAll ops, fun x hx => (h.2 x hx).applyAll ops⟩
 
-theorem exposeOneofs_spec (ds : DescSet) (m : Msg) (hm : m ∈ ds.msgs)
-    (hfree : enumNamesFree ds = true) (os : List OneofD) (hos : ∀ o ∈ os, o ∈ m.oneofs) (reg : Reg)
-    (i : Nat) :
+def Good (ds : DescSet) (st : St) : Prop :=
+  RegOK ds st.reg ∧ ∀ fr ∈ st.stack, FrameOK ds fr ∧ FrameOwns st.reg fr
+
+theorem exposeOneofs_spec (ds : DescSet) (m : Msg) (hm : m ∈ ds.msgs) (hlk : linked ds = true)
+    (os : List OneofD) (hos : ∀ o ∈ os, o ∈ m.oneofs) (reg : Reg) (i : Nat) :
     (∀ w, exposeOneofs m reg i os ≠ .panic w) ∧
     ∀ ex ops, exposeOneofs m reg i os = .ok (ex, ops) →
-      ops.all (opSafe ds) = true ∧ ∀ x ∈ ex, x.2.1 ∈ m.oneofs := by
+      (∀ op ∈ ops, opFree ds op) ∧ (∀ x ∈ ex, x.2.1 ∈ m.oneofs) ∧
+      (∀ x ∈ ex, Owns (reg.applyAll ops) m.pkg x.2.1.split (m.full ++ "." ++ x.2.1.name)) := by
   induction os generalizing reg i with
   | nil =>
     simp only [exposeOneofs]
     refine ⟨by simp, ?_⟩
-    intro ex ops h; cases h; simp
+    intro ex ops h; cases h
+    exact ⟨(by intro op hop; cases hop), (by intro x hx; cases hx), (by intro x hx; cases hx)⟩
   | cons o os ih =>
     have hos' : ∀ o' ∈ os, o' ∈ m.oneofs := fun o' h => hos o' (List.mem_cons_of_mem _ h)
     have ho : o ∈ m.oneofs := hos o (List.mem_cons_self ..)
@@ -508,7 +681,12 @@ theorem exposeOneofs_spec (ds : DescSet) (m : Msg) (hm : m ∈ ds.msgs)
     · exact ih hos' reg (i + 1)
     · split
       · exact ⟨by simp, by intro _ _ h; cases h⟩
-      · simp only
+      · rename_i hhas
+        have hnone : reg.find m.pkg o.split = none := by
+          cases hf : reg.find m.pkg o.split with
+          | none => rfl
+          | some x => simp [Reg.has, hf] at hhas
+        simp only
         obtain ⟨hnp, hok⟩ := ih hos'
           (reg.apply (.link m.pkg o.split (m.full ++ "." ++ o.name) (.oneof m.pkg o.split []))) (i + 1)
         constructor
@@ -517,47 +695,78 @@ theorem exposeOneofs_spec (ds : DescSet) (m : Msg) (hm : m ∈ ds.msgs)
         · intro ex ops h
           split at h
           · rename_i ex' ops' hrec
-            obtain ⟨h1, h2⟩ := hok ex' ops' hrec
+            obtain ⟨h1, h2, h3⟩ := hok ex' ops' hrec
             cases h
-            constructor
-            · simp only [List.all_cons, Bool.and_eq_true]
-              refine ⟨?_, h1⟩
-              simp [opSafe, (msgKey_free ds hfree m hm).2 o ho]
+            refine ⟨?_, ?_, ?_⟩
+            · intro op hop
+              rcases List.mem_cons.mp hop with rfl | hop'
+              · exact Or.inl ((linked_names ds hlk m hm).2 o ho)
+              · exact h1 op hop'
             · intro x hx
               rcases List.mem_cons.mp hx with rfl | hx'
               · exact ho
               · exact h2 x hx'
+            · intro x hx
+              simp only [Reg.applyAll, List.foldl_cons]
+              rcases List.mem_cons.mp hx with rfl | hx'
+              · exact (Owns.link_new reg _ _ _ _ hnone).applyAll ops'
+              · exact h3 x hx'
           · cases h
           · cases h
 
-theorem enter_spec (ds : DescSet) (m : Msg) (hm : m ∈ ds.msgs) (hfree : enumNamesFree ds = true)
-    (reg : Reg) :
+theorem enter_spec (ds : DescSet) (m : Msg) (hm : m ∈ ds.msgs) (hlk : linked ds = true)
+    (reg : Reg) (hown : Owns reg m.pkg m.split m.full) :
     (∀ w, enter m reg ≠ .panic w) ∧
-    ∀ fr ops, enter m reg = .ok (fr, ops) → ops.all (opSafe ds) = true ∧ FrameOK ds fr := by
+    ∀ fr ops, enter m reg = .ok (fr, ops) →
+      (∀ op ∈ ops, opFree ds op) ∧ FrameOK ds fr ∧ FrameOwns (reg.applyAll ops) fr := by
   unfold enter
-  obtain ⟨hnp, hok⟩ := exposeOneofs_spec ds m hm hfree m.oneofs (fun _ h => h) reg 0
+  obtain ⟨hnp, hok⟩ := exposeOneofs_spec ds m hm hlk m.oneofs (fun _ h => h) reg 0
   constructor
   · intro w
     split <;> simp_all
   · intro fr ops h
     split at h
     · rename_i ex ops' hex
-      obtain ⟨h1, h2⟩ := hok ex ops' hex
+      obtain ⟨h1, h2, h3⟩ := hok ex ops' hex
       cases h
-      exact ⟨h1, hm, fun _ h => h, h2⟩
+      exact ⟨h1, ⟨hm, fun _ h => h, h2⟩, hown.applyAll _, h3⟩
     · cases h
     · cases h
 
-theorem finish_spec (ds : DescSet) (fr : Frame) (hfr : FrameOK ds fr)
-    (hfree : enumNamesFree ds = true) :
-    (∀ w, finish fr ≠ .panic w) ∧ ∀ ops, finish fr = .ok ops → ops.all (opSafe ds) = true := by
+/-- the updates of `finish` are safe one after the other: each name is owned by the frame -/
+theorem setsSafe (ds : DescSet) (reg : Reg) (ops : List RegOp)
+    (h : ∀ op ∈ ops, ∃ p k r src, op = .set p k r ∧ Owns reg p k src ∧ srcIsEnum ds src = false) :
+    opsSafe ds reg ops := by
+  induction ops generalizing reg with
+  | nil => trivial
+  | cons op ops ih =>
+    obtain ⟨p, k, r, src, rfl, hown, hs⟩ := h _ (List.mem_cons_self ..)
+    refine ⟨opSafe_set_owned ds reg p k src r hown hs, ih _ ?_⟩
+    intro op' hop'
+    obtain ⟨p', k', r', src', rfl, hown', hs'⟩ := h op' (List.mem_cons_of_mem _ hop')
+    exact ⟨p', k', r', src', rfl, hown'.apply _, hs'⟩
+
+theorem finish_spec (ds : DescSet) (reg : Reg) (fr : Frame) (hfr : FrameOK ds fr)
+    (hown : FrameOwns reg fr) (hlk : linked ds = true) :
+    (∀ w, finish fr ≠ .panic w) ∧ ∀ ops, finish fr = .ok ops → opsSafe ds reg ops := by
   obtain ⟨hm, _, hex⟩ := hfr
-  obtain ⟨hk, hko⟩ := msgKey_free ds hfree fr.msg hm
-  have hexpose : (fr.expose.map fun (x : Nat × OneofD × List RProp) =>
-      RegOp.set fr.msg.pkg x.2.1.split (.oneof fr.msg.pkg x.2.1.split x.2.2)).all (opSafe ds) = true := by
-    simp only [List.all_map, List.all_eq_true]
-    intro x hx
-    simp [Function.comp, opSafe, hko _ (hex x hx)]
+  obtain ⟨hk, hko⟩ := linked_names ds hlk fr.msg hm
+  have hexpose : ∀ op ∈ (fr.expose.map fun (x : Nat × OneofD × List RProp) =>
+      RegOp.set fr.msg.pkg x.2.1.split (.oneof fr.msg.pkg x.2.1.split x.2.2)),
+      ∃ p k r src, op = .set p k r ∧ Owns reg p k src ∧ srcIsEnum ds src = false := by
+    intro op hop
+    obtain ⟨x, hx, rfl⟩ := List.mem_map.mp hop
+    exact ⟨_, _, _, _, rfl, hown.2 x hx, hko _ (hex x hx)⟩
+  have hall : ∀ root, ∀ op ∈ (fr.expose.map fun (x : Nat × OneofD × List RProp) =>
+      RegOp.set fr.msg.pkg x.2.1.split (.oneof fr.msg.pkg x.2.1.split x.2.2)) ++
+      [RegOp.set fr.msg.pkg fr.msg.split root],
+      ∃ p k r src, op = .set p k r ∧ Owns reg p k src ∧ srcIsEnum ds src = false := by
+    intro root op hop
+    rcases List.mem_append.mp hop with h1 | h1
+    · exact hexpose op h1
+    · simp only [List.mem_singleton] at h1
+      subst h1
+      exact ⟨_, _, _, _, rfl, hown.1, hk⟩
   unfold finish
   split
   · exact ⟨by simp, by intro _ h; cases h⟩
@@ -572,8 +781,7 @@ theorem finish_spec (ds : DescSet) (fr : Frame) (hfr : FrameOK ds fr)
           · refine ⟨by simp, ?_⟩
             intro ops h
             cases h
-            simp only [List.all_append, Bool.and_eq_true]
-            exact ⟨hexpose, by simp [opSafe, hk]⟩
+            exact setsSafe ds reg _ (hall _)
           · constructor
             · intro w
               have := findPSM_noPanic fr.msg
@@ -583,8 +791,7 @@ theorem finish_spec (ds : DescSet) (fr : Frame) (hfr : FrameOK ds fr)
               · cases h
               · cases h
               · cases h
-                simp only [List.all_append, Bool.and_eq_true]
-                exact ⟨hexpose, by simp [opSafe, hk]⟩
+                exact setsSafe ds reg _ (hall _)
 
 theorem place_frameOK (ds : DescSet) (fr : Frame) (f : FieldD) (prop : RProp)
     (h : FrameOK ds fr) : FrameOK ds (place fr f prop) := by
@@ -602,9 +809,25 @@ theorem place_frameOK (ds : DescSet) (fr : Frame) (f : FieldD) (prop : RProp)
     · exact ⟨h1, h2, hmap _⟩
     · exact ⟨h1, h2, hmap _⟩
 
+theorem place_owns (reg : Reg) (fr : Frame) (f : FieldD) (prop : RProp) (h : FrameOwns reg fr) :
+    FrameOwns reg (place fr f prop) := by
+  obtain ⟨h1, h2⟩ := h
+  unfold place
+  simp only
+  split
+  · exact ⟨h1, h2⟩
+  · have hmap : ∀ i : Nat, ∀ x ∈ (fr.expose.map fun (x : Nat × OneofD × List RProp) =>
+        if x.1 == i then (x.1, x.2.1, x.2.2 ++ [prop]) else (x.1, x.2.1, x.2.2)),
+        Owns reg fr.msg.pkg x.2.1.split (fr.msg.full ++ "." ++ x.2.1.name) := by
+      intro i x hx
+      obtain ⟨y, hy, rfl⟩ := List.mem_map.mp hx
+      split <;> exact h2 y hy
+    split
+    · exact ⟨h1, hmap _⟩
+    · exact ⟨h1, hmap _⟩
+
 /-- one transition from a good state does not crash and leads to a good state -/
-theorem step_safe (ds : DescSet) (hl : linked ds = true) (hfree : enumNamesFree ds = true) (st : St)
-    (hg : Good ds st) :
+theorem step_safe (ds : DescSet) (hl : linked ds = true) (st : St) (hg : Good ds st) :
     (∀ w, step ds st ≠ .crash w) ∧ (∀ st', step ds st = .cont st' → Good ds st') ∧
     (∀ reg, step ds st = .done reg → RegOK ds reg) := by
   obtain ⟨hreg, hframes⟩ := hg
@@ -615,34 +838,39 @@ theorem step_safe (ds : DescSet) (hl : linked ds = true) (hfree : enumNamesFree 
     · intro st' h; cases h
     · intro reg h; cases h; exact hreg
   · rename_i fr below hstack
-    have hfr : FrameOK ds fr := hframes fr (by simp [hstack])
-    have hbelow : ∀ fr' ∈ below, FrameOK ds fr' := fun fr' h => hframes fr' (by simp [hstack, h])
+    have hfr := hframes fr (by simp [hstack])
+    have hbelow : ∀ fr' ∈ below, FrameOK ds fr' ∧ FrameOwns st.reg fr' :=
+      fun fr' h => hframes fr' (by simp [hstack, h])
     split
     · -- finish
-      obtain ⟨hnp, hops⟩ := finish_spec ds fr hfr hfree
+      obtain ⟨hnp, hops⟩ := finish_spec ds st.reg fr hfr.1 hfr.2 hl
       refine ⟨?_, ?_, ?_⟩
       · intro w; split <;> simp_all
       · intro st' h
         split at h
         · rename_i ops hfin
           cases h
-          exact ⟨hreg.applyAll ops (hops ops hfin), hbelow⟩
+          exact ⟨hreg.applyAll ops (hops ops hfin),
+            fun fr' h' => ⟨(hbelow fr' h').1, (hbelow fr' h').2.applyAll ops⟩⟩
         · cases h
         · cases h
       · intro reg h; split at h <;> cases h
     · rename_i f fs hrest
-      have hf : f ∈ fr.msg.fields := hfr.2.1 f (by simp [hrest])
+      have hf : f ∈ fr.msg.fields := hfr.1.2.1 f (by simp [hrest])
       have hfl : fieldLinked ds f = true := by
-        unfold linked at hl
-        simp only [Bool.and_eq_true, List.all_eq_true] at hl
-        exact hl.1.1.1 fr.msg hfr.1 f hf
-      obtain ⟨hnp, hops⟩ := buildProperty_spec ds st.reg f hreg hfree hfl
-      have hfr' : ∀ prop, FrameOK ds (place { fr with rest := fs } f prop) := by
+        have hl' := hl
+        unfold linked at hl'
+        simp only [Bool.and_eq_true, List.all_eq_true] at hl'
+        exact hl'.1.1.1.1.1 fr.msg hfr.1.1 f hf
+      obtain ⟨hnp, hops⟩ := buildProperty_spec ds st.reg f hreg hl hfl
+      have hfrOK : ∀ prop, FrameOK ds (place { fr with rest := fs } f prop) := by
         intro prop
         apply place_frameOK
-        refine ⟨hfr.1, ?_, hfr.2.2⟩
+        refine ⟨hfr.1.1, ?_, hfr.1.2.2⟩
         intro g hg
-        exact hfr.2.1 g (by simp [hrest, hg])
+        exact hfr.1.2.1 g (by simp [hrest, hg])
+      have hfrOwns : ∀ prop, FrameOwns st.reg (place { fr with rest := fs } f prop) :=
+        fun prop => place_owns st.reg _ f prop hfr.2
       refine ⟨?_, ?_, ?_⟩
       · intro w
         split
@@ -654,36 +882,39 @@ theorem step_safe (ds : DescSet) (hl : linked ds = true) (hfree : enumNamesFree 
           · simp
           · rename_i m hpush
             have hm := (buildProperty_push ds st.reg f prop b m hb hpush).1
-            have := (enter_spec ds m hm hfree (st.reg.applyAll b.ops)).1
+            have hown := buildProperty_push_owns ds st.reg f prop b m hb hpush
+            have := (enter_spec ds m hm hl (st.reg.applyAll b.ops) hown).1
             split <;> simp_all
       · intro st' h
         split at h
         · cases h
         · cases h
         · rename_i prop b hb
-          have hreg' : RegOK ds (st.reg.applyAll b.ops) := hreg.applyAll b.ops (hops prop b hb)
+          have hreg' : RegOK ds (st.reg.applyAll b.ops) :=
+            hreg.applyAll b.ops (opsSafe_of_free ds _ _ (hops prop b hb))
           simp only at h
           split at h
           · cases h
             refine ⟨hreg', ?_⟩
             intro fr' hfr''
             rcases List.mem_cons.mp hfr'' with rfl | hb'
-            · exact hfr' prop
-            · exact hbelow fr' hb'
+            · exact ⟨hfrOK prop, (hfrOwns prop).applyAll _⟩
+            · exact ⟨(hbelow fr' hb').1, (hbelow fr' hb').2.applyAll _⟩
           · rename_i m hpush
             have hm := (buildProperty_push ds st.reg f prop b m hb hpush).1
-            obtain ⟨_, hent⟩ := enter_spec ds m hm hfree (st.reg.applyAll b.ops)
+            have hown := buildProperty_push_owns ds st.reg f prop b m hb hpush
+            obtain ⟨_, hent⟩ := enter_spec ds m hm hl (st.reg.applyAll b.ops) hown
             split at h
             · rename_i child ops hchild
               cases h
-              obtain ⟨hsafe, hchildOK⟩ := hent child ops hchild
-              refine ⟨hreg'.applyAll ops hsafe, ?_⟩
+              obtain ⟨hsafe, hchildOK, hchildOwns⟩ := hent child ops hchild
+              refine ⟨hreg'.applyAll ops (opsSafe_of_free ds _ _ hsafe), ?_⟩
               intro fr' hfr''
               rcases List.mem_cons.mp hfr'' with rfl | hb'
-              · exact hchildOK
+              · exact ⟨hchildOK, hchildOwns⟩
               · rcases List.mem_cons.mp hb' with rfl | hb''
-                · exact hfr' prop
-                · exact hbelow fr' hb''
+                · exact ⟨hfrOK prop, ((hfrOwns prop).applyAll _).applyAll _⟩
+                · exact ⟨(hbelow fr' hb'').1, ((hbelow fr' hb'').2.applyAll _).applyAll _⟩
             · cases h
             · cases h
       · intro reg h
@@ -712,7 +943,7 @@ theorem run_cont (ds : DescSet) (st st' : St) (h : step ds st = .cont st') :
   rw [run.eq_1]; split <;> simp_all
 
 /-- from a good state the machine never panics, and a result is a sound registry -/
-theorem run_safe (ds : DescSet) (hl : linked ds = true) (hfree : enumNamesFree ds = true) (st : St) :
+theorem run_safe (ds : DescSet) (hl : linked ds = true) (st : St) :
     Good ds st → (∀ w, run ds st ≠ .panic w) ∧ (∀ reg, run ds st = .ok reg → RegOK ds reg) := by
   induction st using run.induct ds with
   | case1 x reg h =>
@@ -720,53 +951,56 @@ theorem run_safe (ds : DescSet) (hl : linked ds = true) (hfree : enumNamesFree d
     rw [run_done ds x reg h]
     refine ⟨by simp, ?_⟩
     intro reg' h'; cases h'
-    exact (step_safe ds hl hfree x hg).2.2 reg h
+    exact (step_safe ds hl x hg).2.2 reg h
   | case2 x e h =>
     intro _
     rw [run_fail ds x e h]
     exact ⟨by simp, by intro _ h'; cases h'⟩
   | case3 x w h =>
     intro hg
-    exact absurd h ((step_safe ds hl hfree x hg).1 w)
+    exact absurd h ((step_safe ds hl x hg).1 w)
   | case4 x st' h ih =>
     intro hg
     rw [run_cont ds x st' h]
-    exact ih ((step_safe ds hl hfree x hg).2.1 st' h)
+    exact ih ((step_safe ds hl x hg).2.1 st' h)
 
-theorem buildMessage_safe (ds : DescSet) (hl : linked ds = true) (hfree : enumNamesFree ds = true)
-    (reg : Reg) (m : Msg) (hm : m ∈ ds.msgs) (hreg : RegOK ds reg) :
+theorem buildMessage_safe (ds : DescSet) (hl : linked ds = true) (reg : Reg) (m : Msg)
+    (hm : m ∈ ds.msgs) (hreg : RegOK ds reg) (hnone : reg.find m.pkg m.split = none) :
     (∀ w, buildMessage ds reg m ≠ .panic w) ∧ (∀ reg', buildMessage ds reg m = .ok reg' → RegOK ds reg') := by
   unfold buildMessage
   simp only
-  have hk := (msgKey_free ds hfree m hm).1
-  have hreg1 : RegOK ds (reg.apply (.add m.pkg m.split m.full)) :=
-    hreg.apply _ (by simp [opSafe, hk])
-  obtain ⟨hnp, hent⟩ := enter_spec ds m hm hfree (reg.apply (.add m.pkg m.split m.full))
+  have hk := (linked_names ds hl m hm).1
+  have hreg1 : RegOK ds (reg.apply (.add m.pkg m.split m.full)) := hreg.apply _ hk
+  have hown := Owns.add_new reg m.pkg m.split m.full hnone
+  obtain ⟨hnp, hent⟩ := enter_spec ds m hm hl (reg.apply (.add m.pkg m.split m.full)) hown
   split
   · rename_i fr ops hen
-    obtain ⟨hsafe, hfr⟩ := hent fr ops hen
-    apply run_safe ds hl hfree
-    refine ⟨hreg1.applyAll ops hsafe, ?_⟩
+    obtain ⟨hsafe, hfr, hfo⟩ := hent fr ops hen
+    apply run_safe ds hl
+    refine ⟨hreg1.applyAll ops (opsSafe_of_free ds _ _ hsafe), ?_⟩
     intro fr' h
     simp only [List.mem_singleton] at h
     subst h
-    exact hfr
+    exact ⟨hfr, hfo⟩
   · exact ⟨by simp, by intro _ h; cases h⟩
   · rename_i w hen
     exact absurd hen (hnp w)
 
-theorem messageSchema_safe (ds : DescSet) (hl : linked ds = true) (hfree : enumNamesFree ds = true)
-    (reg : Reg) (m : Msg) (hm : m ∈ ds.msgs) (hreg : RegOK ds reg) :
+theorem messageSchema_safe (ds : DescSet) (hl : linked ds = true) (reg : Reg) (m : Msg)
+    (hm : m ∈ ds.msgs) (hreg : RegOK ds reg) :
     (∀ w, messageSchema ds reg m ≠ .panic w) ∧ (∀ reg', messageSchema ds reg m = .ok reg' → RegOK ds reg') := by
   unfold messageSchema
   split
   · split
-    · refine ⟨by simp, ?_⟩
-      intro reg' h; cases h; exact hreg
     · exact ⟨by simp, by intro _ h; cases h⟩
-  · exact buildMessage_safe ds hl hfree reg m hm hreg
+    · split
+      · refine ⟨by simp, ?_⟩
+        intro reg' h; cases h; exact hreg
+      · exact ⟨by simp, by intro _ h; cases h⟩
+  · rename_i hnone
+    exact buildMessage_safe ds hl reg m hm hreg hnone
 
-theorem messagesLoop_safe (ds : DescSet) (hl : linked ds = true) (hfree : enumNamesFree ds = true)
+theorem messagesLoop_safe (ds : DescSet) (hl : linked ds = true)
     (names : List String) (hn : ∀ full ∈ names, (ds.msg? full).isSome = true) (reg : Reg)
     (hreg : RegOK ds reg) :
     (∀ w, messagesLoop ds reg names ≠ .panic w) ∧
@@ -784,7 +1018,7 @@ theorem messagesLoop_safe (ds : DescSet) (hl : linked ds = true) (hfree : enumNa
     | none => simp [hm] at hfull
     | some m =>
       simp only
-      obtain ⟨hnp, hok⟩ := messageSchema_safe ds hl hfree reg m (msg?_mem ds full m hm) hreg
+      obtain ⟨hnp, hok⟩ := messageSchema_safe ds hl reg m (msg?_mem ds full m hm) hreg
       split
       · rename_i reg' hms
         exact ih hrest reg' (hok reg' hms)
@@ -813,25 +1047,27 @@ theorem enumsLoop_safe (ds : DescSet) (names : List String)
       have hv : en.values.isEmpty = false := by simpa using hfull
       simp only
       split
-      · exact ih hrest reg hreg
+      · split
+        · exact ⟨by simp, by intro _ h; cases h⟩
+        · exact ih hrest reg hreg
       · split
         · rename_i r hb
           apply ih hrest
           apply hreg.apply
-          simp [opSafe, buildEnum_enumRoot en r hb]
+          exact Or.inr (buildEnum_enumRoot en r hb)
         · exact ⟨by simp, by intro _ h; cases h⟩
         · rename_i w hb
           exact absurd hb (buildEnum_noPanic en hv w)
 
-theorem schemaSetFromFiles_safe (ds : DescSet) (hl : linked ds = true)
-    (hfree : enumNamesFree ds = true) :
+theorem schemaSetFromFiles_safe (ds : DescSet) (hl : linked ds = true) :
     (∀ w, schemaSetFromFiles ds ≠ .panic w) ∧
     (∀ reg, schemaSetFromFiles ds = .ok reg → RegOK ds reg) := by
   have hl' := hl
   unfold linked at hl'
   simp only [Bool.and_eq_true, List.all_eq_true] at hl'
-  obtain ⟨⟨⟨_, htop⟩, _⟩, htopE⟩ := hl'
-  obtain ⟨hnp, hok⟩ := messagesLoop_safe ds hl hfree ds.topMsgs htop [] (RegOK.nil ds)
+  have htop := hl'.1.1.1.1.2
+  have htopE := hl'.1.1.2
+  obtain ⟨hnp, hok⟩ := messagesLoop_safe ds hl ds.topMsgs htop [] (RegOK.nil ds)
   unfold schemaSetFromFiles
   split
   · rename_i reg hm
@@ -841,10 +1077,10 @@ theorem schemaSetFromFiles_safe (ds : DescSet) (hl : linked ds = true)
     exact absurd hm (hnp w)
 
 /-- `SchemaCache.Schema` keeps the cache sound and does not panic -/
-theorem cacheSchema_safe (ds : DescSet) (hl : linked ds = true) (hfree : enumNamesFree ds = true)
-    (reg : Reg) (m : Msg) (hm : m ∈ ds.msgs) (hreg : RegOK ds reg) :
+theorem cacheSchema_safe (ds : DescSet) (hl : linked ds = true) (reg : Reg) (m : Msg)
+    (hm : m ∈ ds.msgs) (hreg : RegOK ds reg) :
     (∀ w, (cacheSchema ds reg m).1 ≠ .panic w) ∧ RegOK ds (cacheSchema ds reg m).2 := by
-  obtain ⟨hnp, hok⟩ := messageSchema_safe ds hl hfree reg m hm hreg
+  obtain ⟨hnp, hok⟩ := messageSchema_safe ds hl reg m hm hreg
   unfold cacheSchema
   split
   · rename_i reg' h
@@ -900,9 +1136,11 @@ theorem buildMessageN_sound (ds : DescSet) (n : Nat) (reg : Reg) (m : Msg) (r : 
 def messageSchemaN (ds : DescSet) (n : Nat) (reg : Reg) (m : Msg) : Option (Outcome Reg) :=
   match reg.find m.pkg m.split with
   | some e =>
-    match e.to with
-    | some _ => some (.ok reg)
-    | none => some (.err "unlinked ref")
+    if e.src != m.full then some (.err "schema name is used by two descriptors")
+    else
+      match e.to with
+      | some _ => some (.ok reg)
+      | none => some (.err "unlinked ref")
   | none => buildMessageN ds n reg m
 
 theorem messageSchemaN_sound (ds : DescSet) (n : Nat) (reg : Reg) (m : Msg) (r : Outcome Reg)
@@ -913,8 +1151,12 @@ theorem messageSchemaN_sound (ds : DescSet) (n : Nat) (reg : Reg) (m : Msg) (r :
   · rename_i e hf
     simp only [hf]
     split at h
-    · rename_i x hx; simp only [hx]; cases h; rfl
-    · rename_i hx; simp only [hx]; cases h; rfl
+    · rename_i hs; simp only [hs, ↓reduceIte]; cases h; rfl
+    · rename_i hs
+      simp only [hs, Bool.false_eq_true, ↓reduceIte]
+      split at h
+      · rename_i x hx; simp only [hx]; cases h; rfl
+      · rename_i hx; simp only [hx]; cases h; rfl
   · rename_i hf
     simp only [hf]
     exact buildMessageN_sound ds n reg m r h
